@@ -42,6 +42,9 @@ structure Uni where
   isNumericCh : Nat → Bool
   /-- decimal value of a `\d` / `int()` digit -/
   digitVal : Nat → Option Nat
+  /-- Variant switch carried here because every user of `to_pm` takes a `Uni`: `false` = `DateTimeFormatUtil.to_pm` as
+  found (`hour + 12`, so 17 becomes 29 — finding `timerange-pm-overflow`), `true` = `(hour + 12) % 24`. -/
+  pmWraps : Bool := false
 
 /-- `not s.strip()` -/
 def blank (u : Uni) (s : Str) : Bool := (strip u.isSpace s).isEmpty
@@ -157,7 +160,7 @@ def toPm (u : Uni) (source : Str) : Option Str :=
     match pyInt u h with
     | none => none
     | some hour =>
-      let hour := if hour = 12 then 0 else hour + 12
+      let hour := if hour = 12 then 0 else if u.pmWraps then (hour + 12) % 24 else hour + 12
       some (result ++ joinWith sColon (fmtD 2 hour :: t))
 
 /-- `regex.finditer(r'(?<!P)T\d{2}', s)`: leftmost non-overlapping matches as (start, end). -/
@@ -825,6 +828,83 @@ def endOfToday (ref : DT) : Res := resolveEndOfDay (formatDate ref) ref ref
 def resolveTimeOfToday (u : Uni) (cfg : TodCfg) (t : TodTime) (matchStr : Option Str) (ref : DT) :
     Except String (Option (List Value)) := do
   dateTimeResolution u (toSlot .datetime (← parseTimeOfToday u cfg t matchStr ref))
+
+/-! ## `BaseTimePeriodParser.merge_two_time_points` (after both time points are parsed) and time-range resolution -/
+
+/-- the fields of a time-range `DateTimeResolutionResult`: start / end as seconds from midnight of the reference date
+(an end on the next day is ≥ 86400) -/
+structure PRes where
+  success : Bool := false
+  timex : Str := []
+  comment : Str := []
+  startS : Nat := 0
+  endS : Nat := 0
+deriving DecidableEq, Repr, Inhabited
+
+def DT.secs (x : DT) : Nat := x.hh * 3600 + x.mi * 60 + x.ss
+
+/-- `f'T{t.hour}'` + `f':{t.minute}'` when the minute is positive — no zero padding as written in the code (finding
+`timerange-loose-timex`); `padded = true` is the repaired variant (`:02d`) -/
+def looseTimex (s : Nat) (padded : Bool := false) : Str :=
+  let hour := (s / 3600) % 24
+  let minute := (s / 60) % 60
+  if padded then 84 :: fmtD 2 hour ++ (if minute > 0 then sColon ++ fmtD 2 minute else [])
+  else 84 :: decStr hour ++ (if minute > 0 then sColon ++ decStr minute else [])
+
+/-- `PT{hours}H{minutes}M` of `merge_two_time_points`; `none` = the span is not a whole number of minutes (the code
+then prints a float) -/
+def spanHM (diff : Nat) : Option Str :=
+  if diff % 60 ≠ 0 then none
+  else
+    let hours := diff / 3600
+    let minutes := (diff / 60) % 60
+    some ([80, 84] ++ (if hours > 0 then decStr hours ++ [72] else []) ++ (if 0 < minutes then decStr minutes ++ [77] else []))
+
+/-- `merge_two_time_points` once `pr1`, `pr2` are there. Errors: `"Float"` = a span with seconds (not modelled). -/
+def mergeTwoTimePoints (s1 s2 : Slot) (padded : Bool := false) : Except String PRes :=
+  match s1.res, s2.res with
+  | some r1, some r2 =>
+    let b := r1.future.secs
+    let e := r2.future.secs
+    let amb1 := !r1.comment.isEmpty && endsWith r1.comment sAmPm
+    let amb2 := !r2.comment.isEmpty && endsWith r2.comment sAmPm
+    let (e, tx2) := if amb2 && e ≤ b && b < e + 43200 then (e + 43200, looseTimex (e + 43200) padded) else (e, s2.timex)
+    let (b, tx1) := if amb1 && e > b + 43200 then (b + 43200, looseTimex (b + 43200) padded) else (b, s1.timex)
+    let e := if e < b then e + 86400 else e
+    match spanHM (e - b) with
+    | none => .error "Float"
+    | some span =>
+      .ok { success := true, timex := [40] ++ tx1 ++ [44] ++ tx2 ++ [44] ++ span ++ [41],
+            comment := if amb1 && amb2 then sAmPm else [], startS := b, endS := e }
+  | _, _ => .ok {}
+
+/-- `format_time` of a start / end (`datetime` arithmetic wraps into the next day) -/
+def fmtSecs (s : Nat) : Str := formatTime ⟨1, 1, 1, (s / 3600) % 24, (s / 60) % 60, s % 60⟩
+
+/-- One entry of `resolution['values']` of a range. -/
+structure PValue where
+  timex : Str
+  type : Str
+  start : Str
+  «end» : Str
+deriving DecidableEq, Repr, Inhabited
+
+def sTimeRange : Str := [116, 105, 109, 101, 114, 97, 110, 103, 101]
+
+/-- `BaseTimePeriodParser.parse` post-processing + `_date_time_resolution` for a `timerange` slot with no modifier:
+`__add_period_to_resolution`, and the TIMEPERIOD branch of `_resolve_ampm` (`to_pm` on start and end,
+`all_str_to_pm` on the TIMEX). -/
+def timeRangeResolution (u : Uni) (r : PRes) : Except String (Option (List PValue)) :=
+  if !r.success then .ok none
+  else
+    let st := fmtSecs r.startS
+    let en := fmtSecs r.endS
+    let am : PValue := { timex := r.timex, type := sTimeRange, start := st, «end» := en }
+    if r.comment = sAmPm && !r.timex.isEmpty then
+      match toPm u st, toPm u en, allStrToPm u r.timex with
+      | some st', some en', some tx => .ok (some [am, { timex := tx, type := sTimeRange, start := st', «end» := en' }])
+      | _, _, _ => .error "ValueError"
+    else .ok (some [am])
 
 /-! ## `ChineseTimeParser` (digit and 汉字 clock times; `handle_less` — "差五分十点" — is not modelled) -/
 
